@@ -180,6 +180,19 @@ def _sokoban_random_generator():
 _CSV_DIR = None
 
 
+def _binpack_tiny_csv_path():
+    """A catalogue of three small boxes that never fill the container: every episode packs *all* items while the
+    utilisation stays far below one."""
+    global _CSV_DIR
+    if _CSV_DIR is None:
+        _CSV_DIR = tempfile.mkdtemp(prefix="vf-csv-", dir="/dev/shm" if os.path.isdir("/dev/shm") else None)
+    p = os.path.join(_CSV_DIR, "tiny.csv")
+    if not os.path.exists(p):
+        with open(p, "w") as f:
+            f.write("Item_Name,Length,Width,Height,Quantity\nshape_1,1000,800,500,2\nshape_2,600,600,600,1\n")
+    return p
+
+
 def _binpack_csv_path():
     """CSV instance written at run time into a scratch dir (format from CSVGenerator docstring)."""
     global _CSV_DIR
@@ -314,6 +327,9 @@ def _menus():
     add("BinPack", "r10e30o8huge", bp(lambda: bpg.RandomGenerator(10, 30, split_num_same_items=2,
                                                                    container_dims=(60000, 40000, 5000)), obs=8),
         gen="random", items=10, ems=30)
+    add("BinPack", "csvtiny", bp(lambda: bpg.CSVGenerator(_binpack_tiny_csv_path(), max_num_ems=20), obs=20), gen="csv")
+    add("BinPack", "csvtiny_sparse", bp(lambda: bpg.CSVGenerator(_binpack_tiny_csv_path(), max_num_ems=20), obs=20,
+                                        rw="sparse"), gen="csv")
     # exact dense/sparse twins (C08)
     add("BinPack", "r10e20s2_sparse", bp(lambda: bpg.RandomGenerator(10, 20, split_num_same_items=2,
                                                                       container_dims=(10, 7, 5)), obs=20, norm=False,
@@ -614,7 +630,7 @@ def entries(env: str) -> list:
 QUICK = {
     "Game2048": ["b3", "b4"], "GraphColoring": ["n6p8", "n20p8", "n40p3", "n130p1"], "Minesweeper": ["r3c5m3", "default", "r2c2m1", "r12c12m20", "r4c4m15"],
     "RubiksCube": ["n2s1t3", "n3s7t7"], "SlidingTilePuzzle": ["g3m50t7d", "g2m1t3s", "g12m300t60d"],
-    "Sudoku": ["veryeasy", "dummy", "veryeasy_u8", "near"], "BinPack": ["r10e20s2", "r5e10s1o6", "r10e30o8huge"], "FlatPack": ["r2c3b", "r3c2c"],
+    "Sudoku": ["veryeasy", "dummy", "veryeasy_u8", "near"], "BinPack": ["r10e20s2", "r5e10s1o6", "r10e30o8huge", "csvtiny_sparse"], "FlatPack": ["r2c3b", "r3c2c"],
     "JobShop": ["j3m2o3d2", "j5m4o4d4", "j40m4o3d4", "j130m3o2d3"], "Knapsack": ["n10s", "n50d", "q8d", "n130d"], "Tetris": ["r6c5t400", "r10c10t400"],
     "Cleaner": ["r3c7a1t7", "r5c11a2tNone", "r3c3a2tNone", "r4c6a2t12p0", "r13c13a3tNone"], "Connector": ["g5a2t7rw", "g6a3t50rw", "g5a2t12rwc20s0", "g12a48t50rw", "g6a5t30uni"],
     "CVRP": ["n5s", "n20d", "zb6d", "n130d"], "LevelBasedForaging": ["g6a2f2v2l2cVNp0t100", "g8a3f3v3l3nGRp5t100", "g7a2f3v7l2nGRp0t40", "g5a3f1v5l2nVNp0t40", "g8a3f3v5l2nVNp0t40", "g6a4f1v6l2nVNp0t40"],
